@@ -15,12 +15,12 @@ RULE = ("core-grammar statements with injected comments x all dialects x sampled
         "pretty vector plus random ones); non-trivial = tree with >= 6 nodes; distinct = distinct (default output, dialect, options)")
 ASSUMPTIONS = ["comments may move or be dropped under pretty printing (the property allows 'up to comments')"]
 SPEC = {
-    "quick": {"shards": 16, "time_cap": 150, "statements": 900, "vectors": 5},
-    "thorough": {"shards": 16, "time_cap": 1500, "statements": 12000, "vectors": 12},
+    "quick": {"shards": 16, "time_cap": 150, "statements": 900, "vectors": 5, "corpus_stride": 1},
+    "thorough": {"shards": 16, "time_cap": 1500, "statements": 12000, "vectors": 12, "corpus_all_dialects": True},
 }
 SENTINEL = "__SQLGLOT__LB__"
 SKIP = [
-    ({"tsql", "fabric"}, lambda s, kind: kind == "create-table" and "IF NOT EXISTS" in s),
+    ({"tsql", "fabric"}, lambda s, kind: "IF NOT EXISTS" in s.upper() and s.upper().startswith("CREATE")),
     ({"athena", "databricks", "hive", "materialize", "spark", "spark2"}, lambda s, kind: kind == "create-table" and "UNIQUE (" in s),
     ({"singlestore"}, lambda s, kind: "CAST(NOT " in s),
 ]
@@ -126,6 +126,10 @@ def check_tree(ctx, rng, s, kind, marks, d, nvec, plain=None):
             return
         base = tree.sql(dialect=d)
         t0 = sqlglot.parse_one(base, read=d)
+        if isinstance(t0, exp.Command):
+            # the default output itself is only readable as an opaque command in this dialect (C01's subject)
+            ctx.count("default_output_reparses_as_command(skipped)")
+            return
     except SqlglotError:
         ctx.count("not_parsed_or_not_reparsed(C01)")
         return
@@ -163,8 +167,39 @@ def check_tree(ctx, rng, s, kind, marks, d, nvec, plain=None):
         if nn >= 6:
             ctx.nt([base, dn, okey])
         if canon_noquote(t) != c0:
-            ctx.violation(f"tree-differs:{dn}:{type(tree).__name__}:{_which(opts)}",
+            # name the smallest responsible option set: a single option of the vector if it reproduces alone
+            blame = _which(opts)
+            for k, v in sorted(opts.items()):
+                try:
+                    o1 = tree.sql(dialect=d, **{k: v})
+                    if canon_noquote(sqlglot.parse_one(o1, read=d)) != c0:
+                        blame = k
+                        break
+                except Exception:
+                    blame = k
+                    break
+            where = _first_difference(c0, canon_noquote(t))
+            # COLLATE <name> is read as a column but COLLATE "<name>" as an identifier in every dialect: one mechanism
+            scope = "any-dialect" if (blame == "identify" and where == "column->identifier") else dn
+            ctx.violation(f"tree-differs:{scope}:{type(tree).__name__}:{blame}:{where}",
                           {"sql": s, "options": opts, "default": base[:300], "out": out[:400]}, case)
+
+
+def _first_difference(a, b, path="root"):
+    """class name of the innermost node at which two canonical forms first differ"""
+    if isinstance(a, tuple) and isinstance(b, tuple) and len(a) == 2 and len(b) == 2 and isinstance(a[0], str) and isinstance(b[0], str) \
+            and isinstance(a[1], tuple) and isinstance(b[1], tuple):
+        if a[0] != b[0]:
+            return f"{a[0]}->{b[0]}"
+        if len(a[1]) != len(b[1]):
+            return a[0]
+        for x, y in zip(a[1], b[1]):
+            if x != y:
+                if isinstance(x, tuple) and isinstance(y, tuple) and len(x) == 2 and len(y) == 2 and x[0] == y[0]:
+                    return _first_difference(x[1], y[1], a[0]) if isinstance(x[1], tuple) and x[1] and isinstance(x[1][0], str) and isinstance(x[1][1] if len(x[1]) > 1 else None, tuple) else a[0]
+                return a[0]
+        return a[0]
+    return path
 
 
 def _which(opts):
@@ -187,6 +222,28 @@ def worker(ctx):
             ctx.sample({"statement": s2, "options_example": {"pretty": True, "max_text_width": 20, "leading_comma": True}})
         for d in dialects:
             check_tree(ctx, rng, s2, kind, marks, d, spec["vectors"], plain=s)
+    # the fixed corpus brings node types the core grammar does not have (table properties, locks, pivots, COPY options ...)
+    import os
+    from ..common import VERIF_DIR
+
+    with open(os.path.join(VERIF_DIR, "vf", "corpus", "identity.sql"), encoding="utf-8") as f:
+        corpus = [l.rstrip("\n") for l in f if l.strip()]
+    stride = spec.get("corpus_stride", 1)
+    for li in ctx.mine(len(corpus)):
+        if ctx.expired():
+            break
+        if li % stride:
+            continue
+        rng = ctx.case_rng(9_000_000 + li)
+        s = corpus[li]
+        ctx.count("corpus_statements")
+        # seed-independent choice of dialects (so that the list of findings reachable here is fixed); thorough: all of them
+        ds = dialects if spec.get("corpus_all_dialects") else [""] + [dialects[1 + (li * 7 + j * 11) % (len(dialects) - 1)] for j in range(3)]
+        import random as _r
+
+        vrng = _r.Random(f"C07:corpus:{li}")
+        for d in ds:
+            check_tree(ctx, vrng, s, "corpus", [], d, spec["vectors"], plain=s)
     if ctx.shard == 0:
         run_probes(ctx)
 
